@@ -375,6 +375,10 @@ func init() {
 			return Ptr{Obj: id}, true
 		},
 		"time.Sleep":        noop,
+		// timers are not modelled: a timer never fires within the explored step
+		"time.AfterFunc":        func(e *Engine, fr *Frame, args []Value) (Value, bool) { return Ptr{}, true },
+		"(*time.Timer).Stop":    func(e *Engine, fr *Frame, args []Value) (Value, bool) { return smt.False, true },
+		"(*time.Timer).Reset":   func(e *Engine, fr *Frame, args []Value) (Value, bool) { return smt.False, true },
 		"runtime.Gosched":   noop,
 		"runtime.KeepAlive": noop,
 		"os.Exit": func(e *Engine, fr *Frame, args []Value) (Value, bool) {
